@@ -1,7 +1,7 @@
 (* C11 — Volume-aware simulation scales rates with volume and tracks growth and division. *)
 From Coq Require Import ZArith Reals List Bool Arith Sorted.
 From BS Require Import Base.Arith Model.Term Model.Propensity Model.Interface Model.Rules Model.Random Model.SSA
-                       Spec.RateLaws Proofs.RateProofs Proofs.VolumeProofs Proofs.VolumeRun.
+                       Spec.RateLaws Proofs.RateProofs Proofs.VolumeProofs Proofs.VolumeRun Proofs.DvClock Model.Queue.
 Import ListNotations.
 Local Open Scope R_scope.
 
@@ -60,6 +60,19 @@ Theorem C11_whole_run_growth :
                          sm_t0 s + INR j * sm_dt s <= T <= sm_t0 s + INR (S j) * sm_dt s) done (vs_vols st) /\
     (rest = [] \/ vs_divided st = true).
 Proof. exact volume_run_closed. Qed.
+(* The same for the delay + volume loop (DelayVolumeSSASimulator), with the delay queue as a third source of stops: any queue whose clock
+   is not behind the initial time and whose step is not negative. *)
+Theorem C11_delay_volume_whole_run_growth :
+  forall (s : sim R) g dtime V0 pi2 gfuel (u : nat -> R), 0 < sm_dt s -> (forall n, 0 < u n <= 1) ->
+  (forall x p V t, 0 <= array_sum ArithR (stoch_props ArithR s StochVol x p V t)) ->
+  forall ts fuel pos q st, StronglySorted Rle ts -> Forall (fun t => sm_t0 s <= t) ts ->
+  sm_t0 s <= q_next_time q -> 0 <= q_dt q ->
+  dvssa_simulate ArithR pi2 fuel gfuel s (VTimeThreshold g dtime) V0 q ts u pos = Done st ->
+  exists done rest, ts = done ++ rest /\
+    Forall2 (fun T v => exists j : nat, v = V0 * exp (g * sm_dt s * INR j) /\
+                         sm_t0 s + INR j * sm_dt s <= T <= sm_t0 s + INR (S j) * sm_dt s) done (dv_vols st) /\
+    (rest = [] \/ dv_divided st = true).
+Proof. exact delay_volume_run_closed. Qed.
 (* the hypothesis on the propensities holds for every model run through the safe interface *)
 Theorem C11_safe_propensities_nonneg :
   forall (s : sim R), sm_safe s = true -> forall x p V t, 0 <= array_sum ArithR (stoch_props ArithR s StochVol x p V t).
@@ -77,4 +90,5 @@ Print Assumptions C11_growth_positive_monotone.
 Print Assumptions C11_threshold_division.
 Print Assumptions C11_state_dependent_division.
 Print Assumptions C11_whole_run_growth.
+Print Assumptions C11_delay_volume_whole_run_growth.
 Print Assumptions C11_safe_propensities_nonneg.
